@@ -152,6 +152,16 @@ class World:
                 self.prot.datagram_received(
                     refcodec.sd_message(0x7000, [("offer", sid + 1, 1, 1, 3, 0, (refcodec.v4("192.0.2.9", 30501),), ())]), SENDER, mc)
             self.loop.run_until(0.5)
+        elif warm == 2:
+            # what the seeds refresh is already known with the infinite TTL (one message per channel, session id 1: the
+            # seeds' higher ids are no reboot evidence): a finite entry then replaces an infinite one
+            v4 = refcodec.v4("192.0.2.9", 30501)
+            cfgo = ("config", (("foo", "bar"), ("k", None), ("a", "b=c")))
+            offers = [("offer", sid + 1, 1, 1, 3, 0, (v4,), ()), ("offer", sid, 1, 1, 0xFFFFFF, 0, (v4,), ())]
+            subs = [("subscribe", sid, 1, 1, 0xFFFFFF, 5, (v4,), ()), ("subscribe", sid, 1, 1, 0xFFFFFF, (1 << 16) | 5, (v4,), (cfgo,))]
+            self.prot.datagram_received(refcodec.sd_message(1, offers), SENDER, True)
+            self.prot.datagram_received(refcodec.sd_message(1, offers + subs), SENDER, False)
+            self.loop.run_until(0.5)
         elif warm:
             v4 = refcodec.v4("192.0.2.9", 30501)
             for mc, sess in ((True, 1), (False, 1)):
@@ -254,7 +264,10 @@ def world_result(warm, sid, data, multicast, simple=False, collecting=False, sta
 NOT_STARTED_SEEDS = ("sd-find", "sd-offer-v4", "sd-subscribe-cfg", "sd-unicast-flag-clear", "sd-stop-subscribe", "two-messages")
 
 
-def oracle_b(data, sid, with_simple=False, with_not_started=False, light=False):
+INFINITE_SEEDS = ("sd-offer-v4", "sd-subscribe-cfg", "sd-stopoffer", "sd-stop-subscribe")
+
+
+def oracle_b(data, sid, with_simple=False, with_not_started=False, light=False, with_infinite=False):
     out = []
     tw = twin_of(data)
     combos = [(warm, mc, False, False, True) for warm in (False, True) for mc in (False, True)]
@@ -265,10 +278,12 @@ def oracle_b(data, sid, with_simple=False, with_not_started=False, light=False):
         combos.append((True, False, False, True, True))
     if with_not_started:
         combos.append((True, False, False, False, False))
+    if with_infinite:
+        combos += [(2, False, False, False, True), (2, True, False, False, True)]
     for warm, mc, simple, collecting, started in combos:
         if True:
             exc, obs, loopexc, swallowed = world_result(warm, sid, data, mc, simple, collecting, started)
-            where = f"{'warm' if warm else 'fresh'} discovery endpoint{' with a SimpleService listener' if simple else ''}" \
+            where = f"{('warm (infinite entries known)' if warm == 2 else 'warm') if warm else 'fresh'} discovery endpoint{' with a SimpleService listener' if simple else ''}" \
                     f"{'' if started else ' whose announced instance has not been started yet'}" \
                     f"{' at the end of a send-collection period for the sender' if collecting else ''}, " \
                     f"{'multicast' if mc else 'unicast'}"
@@ -347,7 +362,8 @@ def part(args):
             viols.append((clause, disc, f"{which}: {detail}", dict(seed=name, mutation=mname, data=data, oracle="A")))
         if live:
             for clause, disc, detail in oracle_b(data, sid, name in ("sd-subscribe-cfg", "sd-stop-subscribe"),
-                                                    name in NOT_STARTED_SEEDS, name == "two-sd-messages") + service_endpoint(data):
+                                                    name in NOT_STARTED_SEEDS, name == "two-sd-messages",
+                                                    name in INFINITE_SEEDS) + service_endpoint(data):
                 viols.append((clause, disc, detail, dict(seed=name, mutation=mname, data=data, oracle="B")))
     return n, viols[:200], classes, len(viols)
 
@@ -415,7 +431,8 @@ def replay(ctx, body):
             offs = offsets_of(sb)
     va, cls = oracle_a(data, offs)
     vb = oracle_b(data, sid, c.get("seed") in ("sd-subscribe-cfg", "sd-stop-subscribe"),
-                  c.get("seed") in NOT_STARTED_SEEDS, c.get("seed") == "two-sd-messages") + service_endpoint(data)
+                  c.get("seed") in NOT_STARTED_SEEDS, c.get("seed") == "two-sd-messages",
+                  c.get("seed") in INFINITE_SEEDS) + service_endpoint(data)
     print("decoder outcome classes:", cls)
     for v in va + vb:
         print("FAILS:", v)
